@@ -128,7 +128,9 @@ fn reader_spellable(name: &str) -> bool {
 
 /// input-derived class of a name w.r.t. the known findings
 fn name_class(name: &str, involves_reader_route: bool, involves_s2s: bool) -> Option<&'static str> {
-    if name.contains('\\') {
+    // the listed finding is about symbols the *reader* spells with a raw backslash; the
+    // string->symbol side was repaired and must not hide behind it
+    if name.contains('\\') && involves_reader_route {
         return Some("name-has-backslash");
     }
     let escaped_by_s2s = name
